@@ -140,7 +140,6 @@ func globalBehind(v ssa.Value) *ssa.Global {
 	return nil
 }
 
-
 // lookupHelper: fn is func(string) string that returns table[param] when the key is present and a constant default
 // otherwise (a switch rewritten as a map). Returns the table and the default.
 func (c *Ctx) lookupHelper(fn *ssa.Function) (map[string]string, string, bool) {
